@@ -267,6 +267,13 @@ func (cs *c19Case) build() (files map[string]string, expect func(v *pongo2.Value
 		case "loop":
 			body, rendered = "{% for q in l %}{{ q }}{% endfor %}", "bac"
 		}
+		if cs.Body == "recursive" {
+			// one filter tag entered again while it is being executed (through a recursive macro):
+			// every level applies the chain to its own rendered body
+			src = "{% macro rec(k) %}{% filter " + cs.chainSrc() + " %}<{{ k }}{% if k > 0 %}{{ rec(k-1) }}{% endif %}>{% endfilter %}{% endmacro %}{{ rec(2) }}"
+			expect = func(v *pongo2.Value) string { return v.String() }
+			break
+		}
 		src = "{% filter " + cs.chainSrc() + " %}" + body + "{% endfilter %}"
 		start = pongo2.AsValue(rendered)
 		expect = func(v *pongo2.Value) string { return v.String() }
@@ -350,6 +357,15 @@ func checkC19(c any, r *Rec) error {
 		return nil
 	}
 	want, ferr := cs.fold(start)
+	if cs.Pos == "filter_tag" && cs.Body == "recursive" {
+		inner := ""
+		for k := 0; k <= 2 && ferr == nil; k++ {
+			want, ferr = cs.fold(pongo2.AsValue(fmt.Sprintf("<%d%s>", k, inner)))
+			if ferr == nil {
+				inner = want.String()
+			}
+		}
+	}
 	if ferr != nil {
 		if xerr == nil {
 			return fmt.Errorf("ApplyFilter composition fails (%v) but the template rendered %q\n src=%q", ferr, got, src)
@@ -488,7 +504,10 @@ func genC19(t *rapid.T) *c19Case {
 	}
 	switch cs.Pos {
 	case "filter_tag":
-		cs.Body = pick(t, "body", []string{"text", "var", "empty", "emptyvar", "loop", "markup", "markup"})
+		cs.Body = pick(t, "body", []string{"text", "var", "empty", "emptyvar", "loop", "markup", "markup", "recursive"})
+		if cs.Body == "recursive" && cs.Bound != "" {
+			cs.Body = "text"
+		}
 		if len(cs.Chain) == 0 {
 			cs.Chain = []c19F{{Name: pick(t, "f1", fs)}}
 		}
@@ -516,7 +535,7 @@ func genC19(t *rapid.T) *c19Case {
 
 var _ = register(&propSpec{
 	ID:    "C19.chain",
-	Rule:  "chains of 0-4 deterministic registered filters (registry read through the hook; filters that answer two identical calls differently are detected at start and left out) with literal / context-name / dotted-path / enclosing-scope (with, for, set) parameters over literal and named inputs of every kind, written at 20 positions: output, if, elif, for-in, with (both syntaxes; also with further pairs of the same tag rebinding every name the expression reads), set, include-with, firstof, ifequal, widthratio, macro argument and default, subscript, cycle, ifchanged, right operand of +, operand of unary minus, and the filter tag (bodies: text, text with markup characters, variable, empty, empty variable, loop; with literal parameters only also under autoescape on, where the chain must still equal the fold - string literals include & < > '). Oracle: left-to-right fold of the public ApplyFilter with parameters taken from the reference scope, observed through the position's natural observation; a failing fold requires an execution error. Non-trivial: chain >= 2 whose reversal gives a different result, or a parameter from an enclosing scope; distinct by source.",
+	Rule:  "chains of 0-4 deterministic registered filters (registry read through the hook; filters that answer two identical calls differently are detected at start and left out) with literal / context-name / dotted-path / enclosing-scope (with, for, set) parameters over literal and named inputs of every kind, written at 20 positions: output, if, elif, for-in, with (both syntaxes; also with further pairs of the same tag rebinding every name the expression reads), set, include-with, firstof, ifequal, widthratio, macro argument and default, subscript, cycle, ifchanged, right operand of +, operand of unary minus, and the filter tag (bodies: text, text with markup characters, variable, empty, empty variable, loop, and a body that re-enters the same filter tag through a recursive macro; with literal parameters only also under autoescape on, where the chain must still equal the fold - string literals include & < > '). Oracle: left-to-right fold of the public ApplyFilter with parameters taken from the reference scope, observed through the position's natural observation; a failing fold requires an execution error. Non-trivial: chain >= 2 whose reversal gives a different result, or a parameter from an enclosing scope; distinct by source.",
 	Gen:   func(t *rapid.T) any { return genC19(t) },
 	New:   func() any { return &c19Case{} },
 	Check: checkC19,
